@@ -27,6 +27,15 @@ type source struct {
 	mu      sync.Mutex
 	ver     int
 	fillers int
+	// static: FetchAll delivers the same records every time (no refresh brings
+	// anything new), so that what a refresh does is expiry bookkeeping only
+	static bool
+}
+
+func (s *source) setFillers(n int) {
+	s.mu.Lock()
+	s.fillers = n
+	s.mu.Unlock()
 }
 
 func (s *source) rec(pid peer.ID, v int) *model.ProviderInfo {
@@ -34,8 +43,8 @@ func (s *source) rec(pid peer.ID, v int) *model.ProviderInfo {
 		AddrInfo:              peer.AddrInfo{ID: pid},
 		LastAdvertisementTime: fmt.Sprintf("2024-01-01T00:%02d:%02dZ", v/60%60, v%60),
 		ExtendedProviders: &model.ExtendedProviders{
-			Providers: []peer.AddrInfo{{ID: pid}},
-			Metadatas: [][]byte{nil},
+			Providers:  []peer.AddrInfo{{ID: pid}},
+			Metadatas:  [][]byte{nil},
 			Contextual: []model.ContextualExtendedProviders{{ContextID: "ctx", Providers: []peer.AddrInfo{{ID: pid}}, Metadatas: [][]byte{[]byte("x")}}},
 		},
 	}
@@ -53,10 +62,13 @@ func (s *source) Fetch(_ context.Context, pid peer.ID) (*model.ProviderInfo, err
 func (s *source) FetchAll(context.Context) ([]*model.ProviderInfo, error) {
 	s.mu.Lock()
 	defer s.mu.Unlock()
-	s.ver++
+	n := s.fillers
+	if !s.static {
+		s.ver++
+		// the number of providers oscillates so that refreshes cross the merge threshold both ways
+		n += s.ver % 4
+	}
 	out := []*model.ProviderInfo{s.rec(fixture.Key("ed25519", 0).ID, s.ver)}
-	// the number of providers oscillates so that refreshes cross the merge threshold both ways
-	n := s.fillers + s.ver%4
 	for i := 0; i < n; i++ {
 		out = append(out, s.rec(fixture.Key("ed25519", 100+i).ID, s.ver))
 	}
@@ -73,11 +85,27 @@ func TestRaceBodies(t *testing.T) {
 	pP := fixture.Key("ed25519", 0).ID
 	for round := 0; round < rounds; round++ {
 		src := &source{fillers: round % 5}
-		pc, err := pcache.New(pcache.WithSource(src), pcache.WithRefreshInterval(time.Millisecond), pcache.WithTTL(time.Hour))
+		ttl := time.Hour
+		// every third round: providers disappear from an otherwise unchanging
+		// source and the time-to-live is a millisecond, so that refreshes which
+		// bring nothing new expire providers and negative entries while readers run
+		expiry := round%3 == 1
+		if expiry {
+			src = &source{fillers: 2 + round%3, static: true, ver: 1}
+			ttl = time.Millisecond
+		}
+		pc, err := pcache.New(pcache.WithSource(src), pcache.WithRefreshInterval(time.Millisecond), pcache.WithTTL(ttl))
 		if err != nil {
 			t.Fatal(err)
 		}
 		ctx := context.Background()
+		if expiry {
+			if err := pc.Refresh(ctx); err != nil {
+				t.Fatal(err)
+			}
+			pc.Get(ctx, fixture.Key("ed25519", 300).ID) // a miss: the update map exists from here on
+			src.setFillers(0)                           // the fillers are gone, nothing else ever changes
+		}
 		var wg sync.WaitGroup
 		for r := 0; r < 3; r++ {
 			wg.Add(1)
@@ -105,6 +133,9 @@ func TestRaceBodies(t *testing.T) {
 			for i := 0; i < 12; i++ {
 				if err := pc.Refresh(ctx); err != nil {
 					t.Errorf("Refresh: %v", err)
+				}
+				if expiry {
+					time.Sleep(400 * time.Microsecond)
 				}
 			}
 		}()
